@@ -1,0 +1,159 @@
+//go:build verif
+
+// Contracts for package ring, checked by /verif/gvc (see /verif/DESIGN.md, C09).
+// Abstract view: cnt(rb) buffered bytes, at(rb, i) the i-th of them (0 <= i < cnt).
+
+package ring
+
+//@ pred wf(rb *Buffer) := rb != nil && rb.size == len(rb.buf) && (rb.size == 0 || rb.size >= 2) &&
+//@     0 <= rb.r && 0 <= rb.w &&
+//@     (rb.size == 0 ==> rb.r == 0 && rb.w == 0 && rb.isEmpty) &&
+//@     (rb.size > 0 ==> rb.r < rb.size && rb.w < rb.size) &&
+//@     (rb.isEmpty ==> rb.r == 0 && rb.w == 0)
+//@ pure cnt(rb *Buffer) := rb.isEmpty ? 0 : (rb.w > rb.r ? rb.w - rb.r : rb.size - rb.r + rb.w)
+//@ pure at(rb *Buffer, i int) := rb.buf[rb.r + i < rb.size ? rb.r + i : rb.r + i - rb.size]
+//
+//@ func New(size int) *Buffer
+//@   requires size >= 0
+//@   panics when size > 4611686018427387904
+//@   ensures wf(res) && cnt(res) == 0 && fresh(res)
+//@   ensures size == 0 ==> res.size == 0
+//@   ensures size > 0 ==> res.size >= size
+//
+//@ func (rb *Buffer) Peek(n int) (head []byte, tail []byte)
+//@   requires wf(rb)
+//@   ensures len(head) + len(tail) == (n <= 0 ? cnt(rb) : min(n, cnt(rb)))
+//@   ensures forall i :: 0 <= i && i < len(head) ==> head[i] == at(rb, i)
+//@   ensures forall i :: 0 <= i && i < len(tail) ==> tail[i] == at(rb, len(head) + i)
+//@   ensures cnt(rb) == 0 ==> head == nil && tail == nil
+//@   ensures len(head) == 0 ==> len(tail) == 0
+//
+//@ func (rb *Buffer) peekAll() (head []byte, tail []byte)
+//@   requires wf(rb)
+//@   ensures len(head) + len(tail) == cnt(rb)
+//@   ensures forall i :: 0 <= i && i < len(head) ==> head[i] == at(rb, i)
+//@   ensures forall i :: 0 <= i && i < len(tail) ==> tail[i] == at(rb, len(head) + i)
+//@   ensures cnt(rb) == 0 ==> head == nil && tail == nil
+//@   ensures len(head) == 0 ==> len(tail) == 0
+//
+//@ func (rb *Buffer) Discard(n int) (discarded int, err error)
+//@   requires wf(rb)
+//@   modifies rb.r, rb.w, rb.isEmpty
+//@   ensures wf(rb) && err == nil
+//@   ensures discarded == (n <= 0 ? 0 : min(n, old(cnt(rb))))
+//@   ensures cnt(rb) == old(cnt(rb)) - discarded
+//@   ensures forall i :: 0 <= i && i < cnt(rb) ==> at(rb, i) == old(at(rb, discarded + i))
+//
+//@ func (rb *Buffer) Read(p []byte) (n int, err error)
+//@   requires wf(rb) && disjoint(p, rb.buf)
+//@   modifies rb.r, rb.w, rb.isEmpty, mem(p)
+//@   ensures wf(rb)
+//@   ensures len(p) == 0 ==> n == 0 && err == nil
+//@   ensures len(p) > 0 && old(cnt(rb)) == 0 ==> n == 0 && err == ErrIsEmpty
+//@   ensures len(p) > 0 && old(cnt(rb)) > 0 ==> n == min(len(p), old(cnt(rb))) && err == nil
+//@   ensures cnt(rb) == old(cnt(rb)) - n
+//@   ensures forall i :: 0 <= i && i < n ==> p[i] == old(at(rb, i))
+//@   ensures forall i :: 0 <= i && i < cnt(rb) ==> at(rb, i) == old(at(rb, n + i))
+//
+//@ func (rb *Buffer) ReadByte() (b byte, err error)
+//@   requires wf(rb)
+//@   modifies rb.r, rb.w, rb.isEmpty
+//@   ensures wf(rb)
+//@   ensures old(cnt(rb)) == 0 ==> err == ErrIsEmpty && cnt(rb) == 0
+//@   ensures old(cnt(rb)) > 0 ==> err == nil && b == old(at(rb, 0)) && cnt(rb) == old(cnt(rb)) - 1
+//@   ensures forall i :: 0 <= i && i < cnt(rb) ==> at(rb, i) == old(at(rb, 1 + i))
+//
+//@ func (rb *Buffer) Write(p []byte) (n int, err error)
+//@   requires wf(rb) && disjoint(p, rb.buf)
+//@   modifies rb.*, mem(rb.buf)
+//@   ensures wf(rb) && n == len(p) && err == nil
+//@   ensures cnt(rb) == old(cnt(rb)) + len(p)
+//@   ensures forall i :: 0 <= i && i < old(cnt(rb)) ==> at(rb, i) == old(at(rb, i))
+//@   ensures forall j :: 0 <= j && j < len(p) ==> at(rb, old(cnt(rb)) + j) == p[j]
+//@   ensures rb.size >= old(rb.size)
+//
+//@ func (rb *Buffer) WriteByte(c byte) (err error)
+//@   requires wf(rb)
+//@   modifies rb.*, mem(rb.buf)
+//@   ensures wf(rb) && err == nil
+//@   ensures cnt(rb) == old(cnt(rb)) + 1
+//@   ensures forall i :: 0 <= i && i < old(cnt(rb)) ==> at(rb, i) == old(at(rb, i))
+//@   ensures at(rb, old(cnt(rb))) == c
+//
+//@ func (rb *Buffer) WriteString(s string) (n int, err error)
+//@   requires wf(rb) && disjoint(s, rb.buf)
+//@   modifies rb.*, mem(rb.buf)
+//@   ensures wf(rb) && n == len(s) && err == nil
+//@   ensures cnt(rb) == old(cnt(rb)) + len(s)
+//@   ensures forall i :: 0 <= i && i < old(cnt(rb)) ==> at(rb, i) == old(at(rb, i))
+//@   ensures forall j :: 0 <= j && j < len(s) ==> at(rb, old(cnt(rb)) + j) == s[j]
+//
+//@ func (rb *Buffer) Buffered() int
+//@   requires wf(rb)
+//@   ensures res == cnt(rb)
+//
+//@ func (rb *Buffer) Len() int
+//@   requires wf(rb)
+//@   ensures res == rb.size
+//
+//@ func (rb *Buffer) Cap() int
+//@   requires wf(rb)
+//@   ensures res == rb.size
+//
+//@ func (rb *Buffer) Available() int
+//@   requires wf(rb)
+//@   ensures res == rb.size - cnt(rb)
+//
+//@ func (rb *Buffer) Bytes() []byte
+//@   requires wf(rb)
+//@   ensures cnt(rb) == 0 ==> res == nil
+//@   ensures cnt(rb) > 0 ==> fresh(res)
+//@   ensures len(res) == cnt(rb)
+//@   ensures forall i :: 0 <= i && i < cnt(rb) ==> res[i] == at(rb, i)
+//
+//@ func (rb *Buffer) IsFull() bool
+//@   requires wf(rb)
+//@   ensures res <==> (rb.size > 0 && cnt(rb) == rb.size)
+//
+//@ func (rb *Buffer) IsEmpty() bool
+//@   requires wf(rb)
+//@   ensures res <==> cnt(rb) == 0
+//
+//@ func (rb *Buffer) Reset()
+//@   requires rb != nil
+//@   modifies rb.r, rb.w, rb.isEmpty
+//@   ensures rb.isEmpty && rb.r == 0 && rb.w == 0
+//
+//@ func (rb *Buffer) grow(newCap int)
+//@   requires wf(rb) && newCap > cnt(rb) && newCap <= 1125899906842624
+//@   modifies rb.*
+//@   ensures wf(rb) && rb.size >= newCap && rb.size >= old(rb.size) && rb.r == 0
+//@   ensures cnt(rb) == old(cnt(rb))
+//@   ensures forall i :: 0 <= i && i < cnt(rb) ==> at(rb, i) == old(at(rb, i))
+//@   ensures fresh(rb.buf)
+//@   loop 1:
+//@     invariant n >= old(rb.size) && old(rb.size) >= 4096 && n <= 2251799813685248 && newCap == newCap$0 && unchanged(rb.size, rb.r, rb.w, rb.isEmpty, rb.buf)
+//
+//@ func (rb *Buffer) ReadFrom(r io.Reader) (n int64, err error)
+//@   requires wf(rb) && r != nil
+//@   modifies rb.*, mem(rb.buf), rpos[ref(r)]
+//@   ensures wf(rb)
+//@   ensures n == rpos[ref(r)] - old(rpos[ref(r)]) && cnt(rb) == old(cnt(rb)) + n
+//@   ensures forall i :: 0 <= i && i < old(cnt(rb)) ==> at(rb, i) == old(at(rb, i))
+//@   ensures forall j :: 0 <= j && j < n ==> at(rb, old(cnt(rb)) + j) == rdata[ref(r)][old(rpos[ref(r)]) + j]
+//@   loop 1:
+//@     invariant wf(rb) && n >= 0 && (same(rb.buf, old(rb.buf)) || fresh(rb.buf))
+//@     invariant n == rpos[ref(r)] - old(rpos[ref(r)]) && cnt(rb) == old(cnt(rb)) + n
+//@     invariant forall i :: 0 <= i && i < old(cnt(rb)) ==> at(rb, i) == old(at(rb, i))
+//@     invariant forall j :: 0 <= j && j < n ==> at(rb, old(cnt(rb)) + j) == rdata[ref(r)][old(rpos[ref(r)]) + j]
+//
+//@ func (rb *Buffer) WriteTo(w io.Writer) (n int64, err error)
+//@   requires wf(rb) && w != nil
+//@   modifies rb.r, rb.w, rb.isEmpty, wpos[ref(w)], wdata[ref(w)]
+//@   ensures wf(rb)
+//@   ensures n == wpos[ref(w)] - old(wpos[ref(w)]) && 0 <= n && n <= old(cnt(rb))
+//@   ensures cnt(rb) == old(cnt(rb)) - n
+//@   ensures forall i :: 0 <= i && i < cnt(rb) ==> at(rb, i) == old(at(rb, n + i))
+//@   ensures forall i :: 0 <= i && i < n ==> wdata[ref(w)][old(wpos[ref(w)]) + i] == old(at(rb, i))
+//@   ensures old(cnt(rb)) == 0 ==> err == ErrIsEmpty
+//@   ensures err == nil ==> n == old(cnt(rb))
